@@ -18,23 +18,26 @@
 #include <pthread.h>
 
 /* ------------------------------------------------------------------ logger */
-#define VF_LOGBUF (1u << 20)
+#define VF_LOGBUF (4u << 20)
 static int vf_log_fd = -1;
 static char vf_logbuf[VF_LOGBUF];
 static size_t vf_loglen = 0;
+static size_t vf_linestart = 0;   /* start of the line being composed: only complete lines are ever written out */
 static long vf_log_lines = 0;
 static int vf_log_enabled = 1;
 static __thread int vf_in_call = 0;   /* >0 while inside an allocator API call (crash attribution; the scheduler only switches inside API calls) */
 
-static void vf_log_flush(void) {
+static void vf_log_flush_upto(size_t upto) {
   size_t off = 0;
-  while (off < vf_loglen) {
-    ssize_t n = write(vf_log_fd, vf_logbuf + off, vf_loglen - off);
+  while (off < upto) {
+    ssize_t n = write(vf_log_fd, vf_logbuf + off, upto - off);
     if (n <= 0) break;
     off += (size_t)n;
   }
-  vf_loglen = 0;
+  memmove(vf_logbuf, vf_logbuf + upto, vf_loglen - upto);
+  vf_loglen -= upto; vf_linestart -= (vf_linestart >= upto ? upto : vf_linestart);
 }
+static void vf_log_flush(void) { vf_log_flush_upto(vf_linestart); }      /* complete lines only */
 static void vf_log_raw(const char* s, size_t n) {
   if (!vf_log_enabled) return;
   if (vf_log_fd < 0) {   /* before the trace file is open (allocator start-up): keep in the buffer */
@@ -42,6 +45,7 @@ static void vf_log_raw(const char* s, size_t n) {
     return;
   }
   if (vf_loglen + n > VF_LOGBUF) vf_log_flush();
+  if (vf_loglen + n > VF_LOGBUF) { vf_log_flush_upto(vf_loglen); }     /* a single line larger than the buffer: give up line atomicity */
   if (n > VF_LOGBUF) { (void)!write(vf_log_fd, s, n); return; }
   memcpy(vf_logbuf + vf_loglen, s, n);
   vf_loglen += n;
@@ -56,14 +60,15 @@ static void vf_logf(const char* fmt, ...) {
   if ((size_t)n >= sizeof(tmp)) n = sizeof(tmp) - 1;
   vf_log_raw(tmp, (size_t)n);
 }
-static void vf_log_line_end(void) { vf_log_raw("\n", 1); vf_log_lines++; }
+static void vf_log_line_end(void) { vf_log_raw("\n", 1); vf_log_lines++; vf_linestart = vf_loglen; }
 
 static void vf_crash_handler(int sig) {
   /* a fault inside (or outside) the allocator under a legal program: log and leave */
   char tmp[128];
   int n = snprintf(tmp, sizeof(tmp), "{\"e\":\"crash\",\"sig\":%d,\"incall\":%d}\n", sig, vf_in_call);
   vf_log_enabled = 1;
-  vf_log_raw(tmp, (size_t)n);
+  vf_loglen = vf_linestart;            /* drop a line that was being composed when the fault happened */
+  vf_log_raw(tmp, (size_t)n); vf_linestart = vf_loglen;
   vf_log_flush();
   _exit(0);
 }
@@ -82,7 +87,7 @@ static void vf_log_open(const char* path) {
   sigaction(SIGSEGV, &sa, NULL); sigaction(SIGBUS, &sa, NULL); sigaction(SIGABRT, &sa, NULL);
   sigaction(SIGILL, &sa, NULL); sigaction(SIGFPE, &sa, NULL);
 }
-static void vf_log_close(void) { vf_log_flush(); if (vf_log_fd >= 0) close(vf_log_fd); vf_log_fd = -1; }
+static void vf_log_close(void) { vf_linestart = vf_loglen; vf_log_flush(); if (vf_log_fd >= 0) close(vf_log_fd); vf_log_fd = -1; }
 
 /* address / length encoding for TLC's 32-bit integers: [hi, lo] = [x >> 20, x & 0xFFFFF] */
 #define VF_HI(x) ((long)(((uintptr_t)(x)) >> 20))
